@@ -478,6 +478,10 @@ class Run:
                     rec["end"] = "cancelling"
                     await self.w.pause(f"{name}.cleanup")
                     rec["end"] = "cancelled"
+                if sp["kind"] == "raise_base_on_cancel":
+                    # ... with a BaseException that is not an Exception (a shutdown signal class)
+                    rec["end"] = "raise-on-cancel"
+                    raise SpawnBase(name + " (while cancelled)") from None
                 if sp["kind"] == "raise_on_cancel":
                     # clean-up code of the task fails while it is being cancelled
                     rec["end"] = "raise-on-cancel"
